@@ -4,7 +4,7 @@ CONSTANTS
   NP = 1
   Manual = FALSE
   Hold = FALSE
-  Offs = {1}
+  Offs = {1, 3}
   MaxPay = 2
   MaxKeep = 1
   MaxTick = 3
